@@ -300,22 +300,50 @@ def _finish(cid, tier, seed, mod, t0, groups, results, meta, capped):
         by_sig.setdefault(r.get("sig") or "unsigned", []).append((case, r))
     printed_known = []
     new_violations = []
+    unreproduced = []
+    group_of = {}
+    for gi in results:
+        for ci, case in enumerate(groups[gi]):
+            group_of[case_hash(case)] = (gi, ci)
     for sig, lst in sorted(by_sig.items()):
         match = next((k for k in known if k["signature"] == sig), None)
         if match:
             printed_known.append((match, len(lst)))
             continue
         lst.sort(key=lambda cr: len(json.dumps(cr[0], default=str)))
-        case, r = lst[0]
-        path = write_replay(cid, case, seed, r)
-        rc = confirm_in_fresh_process(path)
-        if rc == 1 or (sig.endswith("/crash") and rc not in (0, 2)):
-            new_violations.append((sig, path, r, len(lst)))
-        elif rc == 0:
-            sys.stderr.write("HARNESS ERROR: violation %s did not reproduce in a fresh process (%s)\n" % (sig, path))
-            return 2
-        else:
+        confirmed = False
+        for case, r in lst[:3]:
+            path = write_replay(cid, case, seed, r)
+            rc = confirm_in_fresh_process(path)
+            if rc == 1 or (sig.endswith("/crash") and rc not in (0, 2)):
+                new_violations.append((sig, path, r, len(lst)))
+                confirmed = True
+                break
+            if rc == 0:
+                # not reproducible on its own: the verdict may depend on what the process did before (a cache, a global).
+                # Replay the cases that preceded it in its group, in a fresh process.
+                gi, ci = group_of.get(case_hash(case), (None, None))
+                if gi is not None and ci > 0:
+                    with open(path) as f:
+                        rp = json.load(f)
+                    rp["prefix_cases"] = groups[gi][:ci]
+                    with open(path, "w") as f:
+                        json.dump(rp, f, indent=1, default=str)
+                    rc2 = confirm_in_fresh_process(path)
+                    if rc2 == 1:
+                        new_violations.append((sig + "/history-dependent", path, r, len(lst)))
+                        confirmed = True
+                        break
+                continue
             sys.stderr.write("HARNESS ERROR: replay of %s failed with rc=%d\n" % (path, rc))
+            return 2
+        if not confirmed:
+            unreproduced.append((sig, len(lst), lst[0][1].get("msg", "")[:200]))
+    if unreproduced:
+        for sig, n, msg in unreproduced:
+            sys.stderr.write("UNREPRODUCED: %s (%d cases) failed inside the exploration but not when replayed in a fresh process: %s\n" % (sig, n, msg))
+        if not new_violations:
+            sys.stderr.write("HARNESS ERROR: failures that do not reproduce and no reproducible violation\n")
             return 2
     for k, n in printed_known:
         print("KNOWN-FINDING: property=%s %s [%s] (%d cases)" % (cid, k["what"], k["signature"], n))
@@ -374,7 +402,7 @@ def run_replay(path: str, quiet=False) -> int:
         rp = json.load(f)
     cid = rp["property"]
     _init(cid, int(rp.get("seed", 0)))
-    res = _mod.run_group([rp["case"]], int(rp.get("seed", 0)))[0]
+    res = _mod.run_group(list(rp.get("prefix_cases", [])) + [rp["case"]], int(rp.get("seed", 0)))[-1]
     if res.get("skipped"):
         if not quiet:
             print("replay skipped by rule:", res["skipped"])
